@@ -37,14 +37,27 @@ for name, ft in graphtage.FILETYPES_BY_TYPENAME.items():
     src = inspect.getsource(fn)
     tree = ast.parse("class _X:\n" + src if src.startswith("    ") else src)
     caught = []
+    def calls_build_tree(stmts):
+        for st in stmts:
+            for n in ast.walk(st):
+                if isinstance(n, ast.Call):
+                    f = n.func
+                    if (isinstance(f, ast.Attribute) and f.attr == "build_tree") or (isinstance(f, ast.Name) and f.id == "build_tree"):
+                        return True
+        return False
     for node in ast.walk(tree):
-        if isinstance(node, ast.ExceptHandler):
-            if node.type is None:
-                caught.append("BaseException")
-            elif isinstance(node.type, ast.Tuple):
-                caught += [dotted(e) for e in node.type.elts]
-            else:
-                caught.append(dotted(node.type))
+        # only the handlers of a `try` whose BODY makes the build_tree call count, and a handler whose body contains a
+        # `raise` (re-raise or a new exception) catches nothing as far as the command line is concerned
+        if isinstance(node, ast.Try) and calls_build_tree(node.body):
+            for h in node.handlers:
+                if any(isinstance(n, ast.Raise) for st in h.body for n in ast.walk(st)):
+                    continue
+                if h.type is None:
+                    caught.append("BaseException")
+                elif isinstance(h.type, ast.Tuple):
+                    caught += [dotted(e) for e in h.type.elts]
+                else:
+                    caught.append(dotted(h.type))
     # resolve each caught name to the class object in the defining module's namespace
     resolved = []
     for c in caught:
@@ -65,30 +78,95 @@ mros = {}
 for name, excs in raisable.items():
     for e in excs:
         modname, _, q = e.rpartition(".")
-        obj = getattr(importlib.import_module(modname), q)
-        mros[e] = [k.__module__ + "." + k.__qualname__ for k in obj.__mro__]
+        try:
+            obj = getattr(importlib.import_module(modname), q)
+            mros[e] = [k.__module__ + "." + k.__qualname__ for k in obj.__mro__]
+        except Exception:
+            mros[e] = [e, "UNRESOLVED"]      # a class that cannot be looked up is caught by nothing
 out["mros"] = mros
 print(json.dumps(out))
 '''
 
-# What the external parser of each text format can raise on syntactically invalid input.  This is an ASSUMPTION
-# about third-party code; it is validated on every run by the fault enumeration of the `faults` stream (an
-# exception class outside this list escaping a loader shows up there as an uncaught exception).
+# What the external parser of each text format can raise on syntactically invalid input: the HAND list (documented
+# behaviour of the libraries plus every class the recorded fuzz below has ever shown).  It is no longer the table the
+# theorem is checked against: `raisable_table()` unites it, on every run, with the classes a seeded fuzz of the
+# parser entry points really raises (second audit, H2: four classes were missing from the hand list and nothing
+# noticed).  Keeping the observed classes in the hand list as well only keeps the generated table (and with it the
+# Lean build cache) stable across seeds.
 RAISABLE = {
-    "json": ["json.decoder.JSONDecodeError", "builtins.UnicodeDecodeError", "builtins.RecursionError"],
+    "json": ["json.decoder.JSONDecodeError", "builtins.UnicodeDecodeError", "builtins.RecursionError",
+             "builtins.ValueError"],                       # int() beyond sys.get_int_max_str_digits()
     "json5": ["builtins.ValueError", "builtins.UnicodeDecodeError", "builtins.RecursionError"],
     "yaml": ["yaml.scanner.ScannerError", "yaml.parser.ParserError", "yaml.reader.ReaderError",
-             "yaml.composer.ComposerError", "yaml.constructor.ConstructorError"],
-    "xml": ["xml.etree.ElementTree.ParseError"],
-    "html": ["xml.etree.ElementTree.ParseError"],
-    "plist": ["xml.parsers.expat.ExpatError", "plistlib.InvalidFileException", "builtins.ValueError", "builtins.IndexError"],
+             "yaml.composer.ComposerError", "yaml.constructor.ConstructorError",
+             # the constructor's converters of tagged scalars: !!int xyz / 2001-13-45 (ValueError), !!timestamp 42
+             # (AttributeError: a regex that did not match), !!bool 42 (KeyError), !!float "" (IndexError)
+             "builtins.ValueError", "builtins.AttributeError", "builtins.KeyError", "builtins.IndexError"],
+    "xml": ["xml.etree.ElementTree.ParseError",
+            "builtins.LookupError", "builtins.ValueError", "builtins.UnicodeError"],   # encoding= of the XML declaration
+    "html": ["xml.etree.ElementTree.ParseError", "builtins.LookupError", "builtins.ValueError", "builtins.UnicodeError"],
+    "plist": ["xml.parsers.expat.ExpatError", "plistlib.InvalidFileException", "builtins.ValueError", "builtins.IndexError",
+              "builtins.AttributeError",                    # <date>notadate</date>
+              "builtins.LookupError", "builtins.UnicodeError",   # encoding= of the XML declaration
+              "binascii.Error",                             # <data> that is not base64
+              "builtins.MemoryError"],                      # absurd size fields of a binary plist
 }
 
+# bounds of the recorded fuzz (files per type; the pure-Python json5 / PyYAML reference parsers are the slow ones)
+FUZZ_FILES = {"quick": {"json": 12000, "json5": 2500, "yaml": 2500, "xml": 12000, "html": 12000, "plist": 12000},
+              "thorough": {"json": 60000, "json5": 12000, "yaml": 12000, "xml": 60000, "html": 60000, "plist": 60000}}
+FUZZ_DEADLINE_S = {"quick": 10.0, "thorough": 60.0}
+LAST_RECORDED = {}
 
-def extract():
+
+def _tier():
+    import sys
+    a = sys.argv
+    if "--tier" in a and a.index("--tier") + 1 < len(a):
+        return a[a.index("--tier") + 1]
+    return os.environ.get("VERIF_TIER", "quick")
+
+
+def record_raised(tier=None):
+    """Seeded fuzz (VERIF_SEED) of the parser entry point each loader calls, one subprocess per file type, all in
+    parallel: {type: {"classes": {qualified class: count}, "tried": n, "rejected": n}}.  Independent of /repo (graphtage
+    is not imported); only files the stream's independent reference parser rejects are counted.  Nothing is cached."""
+    from concurrent.futures import ThreadPoolExecutor
+    tier = tier if tier in FUZZ_FILES else "quick"
+    env = dict(os.environ)
+    env["PYTHONPATH"] = C.VERIF
+    env["PYTHONHASHSEED"] = "0"
+    code = ("import json,sys\nfrom harness.streams import faults\n"
+            "k=sys.argv[1]\nprint(json.dumps(faults.record_raised(int(sys.argv[2]), kinds=[k], per_kind=int(sys.argv[3]), "
+            "deadline_s=float(sys.argv[4]), tier='quick')))")
+
+    def one(kind):
+        p = subprocess.run([C.PY, "-c", code, kind, str(C.seed()), str(FUZZ_FILES[tier][kind]), str(FUZZ_DEADLINE_S[tier])],
+                           capture_output=True, text=True, env=env, cwd=C.VERIF, timeout=4 * FUZZ_DEADLINE_S[tier] + 60)
+        if p.returncode != 0:
+            raise RuntimeError(f"recorded fuzz of the {kind} parser died (rc={p.returncode}): " + p.stderr[-600:])
+        return json.loads(p.stdout.strip().split("\n")[-1])[kind]
+    kinds = sorted(RAISABLE)
+    with ThreadPoolExecutor(max_workers=len(kinds)) as ex:
+        res = dict(zip(kinds, ex.map(one, kinds)))
+    LAST_RECORDED.clear()
+    LAST_RECORDED.update(res)
+    return res
+
+
+def raisable_table(recorded):
+    """hand list ∪ recorded classes, per type (hand list first, then new classes in sorted order)"""
+    out = {}
+    for k, hand in RAISABLE.items():
+        extra = sorted(c for c in recorded.get(k, {}).get("classes", {}) if c not in hand)
+        out[k] = list(hand) + extra
+    return out
+
+
+def extract(raisable=None):
     env = dict(os.environ)
     env["PYTHONPATH"] = C.REPO
-    p = subprocess.run([C.PY, "-c", _EXTRACT, json.dumps(RAISABLE)], capture_output=True, text=True, env=env, timeout=120)
+    p = subprocess.run([C.PY, "-c", _EXTRACT, json.dumps(raisable if raisable is not None else RAISABLE)], capture_output=True, text=True, env=env, timeout=120)
     if p.returncode != 0:
         raise RuntimeError("table extraction failed: " + p.stderr[-800:])
     return json.loads(p.stdout.strip().split("\n")[-1])
@@ -112,7 +190,11 @@ def _lst(xs):
 
 
 def gen_cli_tables():
-    t = extract()
+    recorded = record_raised(_tier())
+    raisable = raisable_table(recorded)
+    t = extract(raisable)
+    t["recorded"] = recorded
+    t["raisable"] = raisable
     lines = ["-- GENERATED from /repo by harness/gentables.py on every run. Do not edit.",
              "namespace GtModel.Gen", "",
              "/-- FILETYPES_BY_TYPENAME in registration order: (type name, default MIME type, all MIME types) -/",
@@ -123,10 +205,11 @@ def gen_cli_tables():
     lines += ["]", "", "/-- exception classes caught by each type's `build_tree_handling_errors` (fully qualified) -/",
               "def caught : List (String × List String) := ["]
     lines.append(",\n".join(f"  ({_s(n)}, {_lst(_s(c) for c in cs)})" for n, cs in sorted(t["handlers"].items())))
-    lines += ["]", "", "/-- ASSUMED: what each type's external parser raises on invalid syntax (validated by fault enumeration) -/",
+    lines += ["]", "", "/-- what each type's external parser raises on invalid syntax: the hand list of harness/gentables.py united with",
+              "    every class a seeded fuzz of the parser entry points raised in THIS run (on files an independent parser rejects) -/",
               "def raisable : List (String × List String) := ["]
-    lines.append(",\n".join(f"  ({_s(n)}, {_lst(_s(c) for c in cs)})" for n, cs in sorted(RAISABLE.items())))
-    lines += ["]", "", "/-- method resolution order of every assumed-raisable class -/", "def mro : List (String × List String) := ["]
+    lines.append(",\n".join(f"  ({_s(n)}, {_lst(_s(c) for c in cs)})" for n, cs in sorted(raisable.items())))
+    lines += ["]", "", "/-- method resolution order of every raisable class -/", "def mro : List (String × List String) := ["]
     lines.append(",\n".join(f"  ({_s(n)}, {_lst(_s(c) for c in cs)})" for n, cs in sorted(t["mros"].items())))
     lines += ["]", "", "end GtModel.Gen", ""]
     _write_if_changed(os.path.join(GEN_DIR, "CliTables.lean"), "\n".join(lines))
